@@ -742,7 +742,7 @@ def check_C18():
     tlc_must_pass(model, "Tree.tla RoundTrip")
     em = run_tlc("MCTree", cfg + "_emit.cfg", timeout=2400)
     tlc_must_pass(em, "Tree.tla emitter")
-    pm = 150 if tier() == "quick" else 60
+    pm = 150 if tier() == "quick" else 20     # thorough: 20 permille of ~12 M cases (60 permille took an hour next to other jobs)
     rc, rep = harness_run(vh, ["tree-replay", em["out"], "@REPORT", car, "seed=%d" % seed(), "permille=%d" % pm], timeout=3400)
     os.remove(em["out"])
     cov = {"evaluations": rep["evaluations"], "distinct_nontrivial": rep["distinct_nontrivial"],
